@@ -301,6 +301,7 @@ type parseResult struct {
 }
 
 func parseOnce(data []byte, c C09Case, tmp string) parseResult {
+	hangTouch()
 	done := make(chan parseResult, 1)
 	go func() {
 		var pr parseResult
